@@ -32,6 +32,12 @@ struct XUtils : Engine {
             RV two = RV::mk(RV::Arr); two.arr = { RV::number(7), RV::string("x") }; d.push_back(two);
             RV nest = RV::mk(RV::Obj); RV inner = RV::mk(RV::Arr); for (int i = 0; i < 12; i++) { RV o = RV::mk(RV::Obj); o.obj.emplace_back("k~/", RV::number(i)); inner.arr.push_back(o); } nest.obj.emplace_back("a/b", inner); d.push_back(nest);
         }
+        if (which == "doc" || which == "merge") {
+            // flat objects with three members in every order (the node bound above stops at two members)
+            static const char* k3[] = { "a", "b", "c" }; int perm[6][3] = { {0,1,2},{0,2,1},{1,0,2},{1,2,0},{2,0,1},{2,1,0} };
+            for (auto& pm : perm) for (int variant = 0; variant < 2; variant++) { RV o = RV::mk(RV::Obj); for (int i = 0; i < 3; i++) o.obj.emplace_back(k3[pm[i]], variant ? RV::string(k3[pm[i]]) : RV::number(pm[i] + 1)); d.push_back(o); }
+            { RV o = RV::mk(RV::Obj); for (const char* k : { "d", "b", "a", "c" }) o.obj.emplace_back(k, RV::number(1)); d.push_back(o); }
+        }
         if (which == "merge") {
             // nested objects whose keys differ only by case, and null members
             static const char* ks[] = { "a", "A", "b", "B", "z", "\xc3\xa9" }; std::vector<RV> vals = { RV::number(1), RV::number(2), RV::mk(RV::Null) };
@@ -56,7 +62,7 @@ struct XUtils : Engine {
         init(); bool T = cfg.thorough(); std::vector<std::string> st;
         switch (mode) {
             case U_POINTER: { long k = cfg.optl("ptrlen", T ? 5 : 4); for (long i = 0; i <= k; i++) st.push_back("resolve_len" + std::to_string(i)); st.push_back("resolve_special"); st.push_back("construct"); if (T) { st.push_back("resolve4"); st.push_back("construct4"); } break; }
-            case U_PATCH: st = { "single1", "single2", "robust", "pairs" }; if (T) { st.push_back("single2full"); st.push_back("single3"); st.push_back("single4"); } break;
+            case U_PATCH: st = { "single1", "indices", "single2", "robust", "pairs" }; if (T) { st.push_back("single2full"); st.push_back("single3"); st.push_back("single4"); } break;
             case U_GENERATE: st = { "pairs" }; if (T) st.push_back("pairs4"); break;
             case U_MERGE: st = { "apply", "generate" }; if (T) { st.push_back("apply4"); st.push_back("generate4"); } break;
         }
@@ -111,6 +117,15 @@ struct XUtils : Engine {
                 std::vector<std::string> paths = token_paths(L), froms = token_paths(L > 2 ? 2 : L);
                 std::vector<RV> ops = single_ops(paths, froms);
                 for (size_t d = 0; d < D.size(); d++) for (size_t chunk = 0; chunk < ops.size(); chunk += 64) { if (!pool_take()) continue; for (size_t o = chunk; o < ops.size() && o < chunk + 64; o++) { RV p = RV::mk(RV::Arr); p.arr.push_back(ops[o]); run_patch(d, p); } }
+            } else if (stage == "indices") {
+                // array index tokens that must be rejected (or are just valid) in every operation and position
+                std::vector<std::string> toks = { "18446744073709551616", "18446744073709551617", "18446744073709551615", "4294967296", "4294967297", "2147483648", "01", "00", "1e0", "-1", "+1", " 1", "1 ", "0x1", "1.0", "", "0", "1", "2", "3", "-" };
+                std::vector<std::string> paths; for (auto& t : toks) { paths.push_back("/" + t); paths.push_back("/0/" + t); paths.push_back("/a/" + t); paths.push_back("/" + t + "/0"); }
+                std::vector<std::string> froms = paths; froms.push_back("/0"); froms.push_back("/a"); froms.push_back("");
+                std::vector<RV> ops = single_ops(paths, {}); RV v1 = RV::number(1);
+                for (auto& p : paths) for (auto& f : froms) { ops.push_back(mkop("move", p, &f, nullptr)); ops.push_back(mkop("copy", p, &f, nullptr)); ops.push_back(mkop("move", f, &p, nullptr)); }
+                std::vector<RV> docs2; for (const char* t : { "[1,2,3]", "[[1,2],[3]]", "{\"a\":[1,2,3]}", "[{\"a\":1},2]", "[]" }) { RV v; S_parse((const uint8_t*)t, strlen(t), v); docs2.push_back(v); }
+                for (size_t d = 0; d < docs2.size(); d++) for (size_t chunk = 0; chunk < ops.size(); chunk += 64) { if (!pool_take()) continue; for (size_t o = chunk; o < ops.size() && o < chunk + 64; o++) { RV p = RV::mk(RV::Arr); p.arr.push_back(ops[o]); static Case c; c.kind = K_PATCH; c.iv[1] = -1; std::string ser = rv_ser(docs2[d]) + "\x1f" + rv_ser(p); if (ser.size() > sizeof c.data) continue; c.set(ser); ctr().extra[4]++; pool_run(c); } }
             } else if (stage == "pairs") {
                 for (size_t d = 0; d < D.size(); d++) {
                     if (!pool_take()) continue;
@@ -205,11 +220,14 @@ struct XUtils : Engine {
     }
 
     void do_patch(const Case& c) {
-        size_t d = (size_t)c.iv[1]; if (d >= D.size()) return; RV patch; if (!rv_deser(c.str(), patch)) return;
-        cJSON* doc = build_tree(D[d]); cJSON* pt = build_tree(patch);
+        RV inline_doc; RV patch; const RV* docp = nullptr;
+        if (c.iv[1] < 0) { std::string s = c.str(); size_t sep = s.find('\x1f'); if (sep == std::string::npos || !rv_deser(s.substr(0, sep), inline_doc) || !rv_deser(s.substr(sep + 1), patch)) return; docp = &inline_doc; }
+        else { size_t di = (size_t)c.iv[1]; if (di >= D.size() || !rv_deser(c.str(), patch)) return; docp = &D[di]; }
+        const RV& DOC = *docp;
+        cJSON* doc = build_tree(DOC); cJSON* pt = build_tree(patch);
         int status = LIB(cJSONUtils_ApplyPatchesCaseSensitive(doc, pt)); ctr().calls++;
-        RV ref = D[d]; PatchEval pe; PatchVerdict pv = pe.apply(ref, patch);
-        std::string ctx = "document " + rv_text(D[d]).substr(0, 150) + " patch " + rv_text(patch).substr(0, 300);
+        RV ref = DOC; PatchEval pe; PatchVerdict pv = pe.apply(ref, patch);
+        std::string ctx = "document " + rv_text(DOC).substr(0, 150) + " patch " + rv_text(patch).substr(0, 300);
         if (verbose) { Walk w = walk(doc); printf("  ApplyPatchesCaseSensitive -> status %d, document now %s ; reference: %s %s\n", status, w.ok ? w.text.c_str() : w.err.c_str(), pv == P_OK ? "success" : pv == P_FAIL ? "failure" : "open", pv == P_OK ? rv_text(ref).c_str() : ""); }
         note_outcome((uint64_t)pv | (uint64_t)(status > 15 ? 15 : status) << 2);
         bool skip_walk = false;
@@ -285,7 +303,7 @@ struct XUtils : Engine {
 
     std::string describe(const Case& c) override {
         size_t i = (size_t)c.iv[1], j = (size_t)c.iv[2]; std::string di = i < D.size() ? rv_text(D[i]).substr(0, 120) : "#" + std::to_string(i), dj = j < D.size() ? rv_text(D[j]).substr(0, 120) : "#" + std::to_string(j);
-        switch (c.kind) { case K_RESOLVE: return "pointer \"" + printable(c.str()) + "\" on " + di; case K_CONSTRUCT: return "construct pointers in " + di; case K_PATCH: { RV p; rv_deser(c.str(), p); return "document " + di + " patch " + rv_text(p).substr(0, 200); } default: return di + " -> " + dj; }
+        switch (c.kind) { case K_RESOLVE: return "pointer \"" + printable(c.str()) + "\" on " + di; case K_CONSTRUCT: return "construct pointers in " + di; case K_PATCH: { if (c.iv[1] < 0) { std::string x = c.str(); size_t sep = x.find('\x1f'); RV dd, pp; if (sep != std::string::npos && rv_deser(x.substr(0, sep), dd) && rv_deser(x.substr(sep + 1), pp)) return "document " + rv_text(dd) + " patch " + rv_text(pp).substr(0, 200); return "?"; } RV p; rv_deser(c.str(), p); return "document " + di + " patch " + rv_text(p).substr(0, 200); } default: return di + " -> " + dj; }
     }
     void finish(std::map<std::string, std::string>& x) override {
         x["rule"] = jstr("C15: all documents <= 3 nodes over 13 awkward keys x all pointer strings over {/,~,0,1,2,a,A,-} up to the length bound + special tokens; C16: documents x every single-operation patch over token paths, all two-operation patches over existing/insertable paths, all small JSON values as patch; "
